@@ -218,15 +218,7 @@ def check(run: Run) -> None:
             run.check("C12.R3", f"to_string keeps the body verbatim up to outer whitespace ({label})", v == want, "Note.to_string", f"{body!r} -> {v!r}",
                       f"a note whose body is {body!r} is rendered as {v!r}, expected {want!r}: the text form no longer compiles back to the same note "
                       "(a continuation line that loses its indentation ends the item and orphans the rest)", file=FILE_P if "FILE_P" in globals() else "src/zorg/domain/models/_page.py")
-    # ---- R4
-    from ..flatten import flat_info
-
-    for q, nm in (("zorg.service.swog._executor._select_note", "_select_note"), ("zorg.storage.file._manager.FileManager.add_note", "add_note")):
-        f = flat_info(model, q)
-        uses = any(isinstance(c, ast.Call) and isinstance(c.func, ast.Attribute) and c.func.attr == "to_string" for c in ast.walk(f.node))
-        own = [j for j in ast.walk(f.node) if isinstance(j, ast.JoinedStr) and any(isinstance(v, ast.FormattedValue) and "body" in ast.unparse(v.value) for v in j.values)]
-        run.check("C12.R4", f"{nm} renders notes through Note.to_string only", uses and not own, nm, own[0] if own else "to_string", f"{nm} builds item text itself instead of calling Note.to_string", file=f.file, node=f.node)
-
+    # ---- R4: what the query path / the move path emit IS Note.to_string (decided on scenarios below and in C10's move runs, not on who calls whom)
     # the query path renders a multi-line note with every one of its lines intact (interior whitespace-only lines and trailing blanks are part of the body the grammar accepts)
     from .c09 import _Pipeline
 
@@ -239,6 +231,14 @@ def check(run: Run) -> None:
         run.check("C12.R4", "a selected multi-line note is rendered with all its lines unchanged", raw == want_raw, "execute_with_session", f"rendered {raw!r}"[:200],
                   f"selecting a note whose body is 'first line  \\n   \\n  third line' renders {raw!r}, expected {want_raw!r}: interior lines are stripped, so a whitespace-only continuation line becomes "
                   "an empty line that ends the item (the rest is orphaned, the page has syntax errors) and trailing blanks of the body are lost", file=P.fe.file, node=P.fe.node)
+    kinds4 = [("OPEN_TODO", "o", True), ("CLOSED_TODO", "x", False), ("CANCELED_TODO", "~", False), ("BLOCKED_TODO", "<", True), ("PARENT_TODO", ">", True)]
+    specs4 = [dict(body=f"todo {i}\n  second line of {i}", fp="p.zo", line=10 + i, status=st_, priority="P1") for i, (st_, _, _) in enumerate(kinds4)] + [dict(body="plain", fp="p.zo", line=30)]
+    r = P.go("C12.R4", "todos of every kind and a note", specs4, P.SS["NOTE"], [], ["NONE"])
+    if r is not None:
+        raw = r[0]
+        want_raw = "\n".join([f"{ch}{' P1' if shows else ''} todo {i}\n  second line of {i}" for i, (_, ch, shows) in enumerate(kinds4)] + ["- plain"])
+        run.check("C12.R4", "selected todos are emitted in the text form of Note.to_string (kind character, priority of live kinds, all lines)", raw == want_raw, "execute_with_session", f"rendered {raw!r}"[:200],
+                  f"selecting five two-line P1 todos (o x ~ < >) and a note renders {raw!r}, expected {want_raw!r}: the query path does not emit the notes' own text form", file=P.fe.file, node=P.fe.node)
     # ---- R5 / R7
     refresh_scenarios(run, model)
     # ---- R8
